@@ -17,6 +17,7 @@ RULE = (
 )
 ASSUMPTIONS = [
     "the harness conversion is accurate to a few ulp; outputs may differ by that input perturbation times the measured sensitivity, plus 4 x precision x sensitivity in iterated permeate modes (precision 1e-10..1e-8)",
+    "solver-level twins are judged only where the activity model is numerically meaningful (gamma within 1e-8..1e8, flux <= P x p_feed; see C06)",
     "fitted coefficients are compared only through the measurement points, as the property prescribes; process/curve twins therefore use identical curve sets",
 ]
 EPS = 2.0**-52
@@ -75,6 +76,14 @@ def solver_case(rep, spec, index):
             rep.require("both bases have the same outcome", False, case, {"mass": sa, "molar": sb, "error": repr(a if sa == "raised" else b)})
         else:
             rep.count(f"solver_{sa}_{sb}")
+        return
+    from .c06 import physically_bounded, sane_gamma
+
+    sane = sane_gamma(fc.mix, fc.model, fc.t_feed, fc.comp) and physically_bounded(fc, a["j"])
+    if sane and fc.tp is not None and 0 <= a["y"] <= 1:
+        sane = sane_gamma(fc.mix, fc.model, fc.tp, Composition(p=a["y"], type="weight"))
+    if not sane:
+        rep.count("solver_numerical_breakdown_skipped")  # see C06: gamma outside 1e-8..1e8 (shipped UNIQUAC sets outside their range)
         return
     # sensitivity of the fluxes to the permeate composition (iteration may stop one step apart)
     j = a["j"]
@@ -155,6 +164,28 @@ def measurement_case(rep, spec, index):
     m1, m2 = mix.first_component.molecular_weight, mix.second_component.molecular_weight
     rep.case(case, nontrivial=m1 != m2, cls="measurements")
     cond = max(1.0, m1 / m2, m2 / m1)
+    if rng.random() < 0.5:
+        # history: both sets are first USED by a non-ideal model (cheapest fit orders), then the measurements are extracted
+        from pyvaporation.conditions import Conditions
+        from pyvaporation.pervaporation import Pervaporation
+
+        mem = gen.gen_membrane(rng, mix)
+        cnd = Conditions(membrane_area=1.0, initial_feed_temperature=330.0, initial_feed_amount=10.0,
+                         initial_feed_composition=gen.gen_composition(rng, mix, edge=0.1))
+        kind = rng.choice(["non_ideal_isothermal_process", "non_ideal_non_isothermal_process", "non_ideal_diffusion_curve"])
+        for the_set in (cs, tw):
+            try:
+                with guards.budget(proc.SOFT_BUDGET):
+                    if kind == "non_ideal_diffusion_curve":
+                        Pervaporation(mem, mix).non_ideal_diffusion_curve(diffusion_curve_set=the_set, feed_temperature=330.0, initial_feed_composition=cnd.initial_feed_composition,
+                                                                        delta_composition=0.01, number_of_steps=1, n_first=0, n_second=0, m_first=0, m_second=0)
+                    else:
+                        getattr(Pervaporation(mem, mix), kind)(conditions=cnd, diffusion_curve_set=the_set, number_of_steps=1, delta_hours=1e-6,
+                                                                n_first=0, n_second=0, m_first=0, m_second=0)
+            except (Exception, guards.BudgetExceeded):
+                pass
+        rep.count("measurement_cases_after_model_use")
+        case["used_by"] = kind
     for name in ("from_diffusion_curves_first", "from_diffusion_curves_second"):
         a = getattr(Measurements, name)(cs)
         b = getattr(Measurements, name)(tw)
